@@ -406,6 +406,13 @@ def r05_4(ctx: Ctx, rep: Report) -> None:  # noqa: C901
     raising = [p for p in paths if p.raises]
     rep.require(bool(normal), "Wildcard._ncw_bits has no normal path")
     ret_names = {src(p.ret) for p in normal if p.ret is not None}
+    # the list that is counted is a whole tail of the bit list: a slice with an upper bound drops bits before they are counted
+    for x in own_nodes(nb.node):
+        if isinstance(x, (ast.Assign, ast.AnnAssign)) and x.value is not None:
+            t_ = x.targets[0] if isinstance(x, ast.Assign) else x.target
+            if isinstance(t_, ast.Name) and t_.id in ret_names and isinstance(x.value, ast.Subscript) and isinstance(x.value.slice, ast.Slice) and x.value.slice.upper is not None:
+                rep.instance()
+                rep.violation("Wildcard._ncw_bits", snippet(x, 60), "the non-contiguous bits are cut by a slice with an upper bound before they are counted: a mask with more such bits than the bound passes the limit check and is expanded without them (truncated instead of rejected)", where(nb, x), inp="Wildcard('0.0.0.0 255.255.255.254', max_ncwb=30)")
     ok_guard = False
     detail = ""
     for c in cfg.live:
@@ -949,6 +956,36 @@ def expansion_covers_members(ctx: Ctx, rep: Report, rid: str = "R05.12") -> None
     rep.floor(1, "member loops of ipnets()") if n else None
 
 
+ZERO_IS_A_VALUE = {"_prefixlen": "prefix length 0 is the whole address space", "max_ncwb": "limit 0 means no non-contiguous bit is allowed", "_max_ncwb": "limit 0 means no non-contiguous bit is allowed", "_number": "protocol 0 is ip"}
+
+
+def zero_is_not_unset(ctx: Ctx, rep: Report, rid: str = "R05.13") -> None:
+    """Attributes for which 0 is a value like any other (prefix length, bit limit, protocol number) are never defaulted or
+    tested by truthiness: `self._prefixlen or 32` turns the all-wild mask into a host."""
+    rep.rule(rid)
+    hits = 0
+    n = 0
+    for f in ctx.prog.funcs:
+        if f.cls is None:
+            continue
+        for x in own_nodes(f.node):
+            cand = None
+            if isinstance(x, ast.BoolOp) and isinstance(x.op, ast.Or) and isinstance(x.values[0], ast.Attribute) and src(x.values[0].value) == "self" and x.values[0].attr in ZERO_IS_A_VALUE:
+                cand = x.values[0]
+            elif isinstance(x, ast.UnaryOp) and isinstance(x.op, ast.Not) and isinstance(x.operand, ast.Attribute) and src(x.operand.value) == "self" and x.operand.attr in ZERO_IS_A_VALUE:
+                cand = x.operand
+            elif isinstance(x, (ast.If, ast.IfExp, ast.While)) and isinstance(x.test, ast.Attribute) and src(x.test.value) == "self" and x.test.attr in ZERO_IS_A_VALUE:
+                cand = x.test
+            if cand is not None:
+                n += 1
+                hits += 1
+                rep.instance()
+                rep.violation(f.qualname, snippet(x if not isinstance(x, (ast.If, ast.While)) else x.test, 60), f"`self.{cand.attr}` is tested / defaulted by truthiness, but {ZERO_IS_A_VALUE[cand.attr]}: the value 0 is replaced or treated as absent", where(f, cand), inp="Wildcard('0.0.0.0 255.255.255.255').ipnets()")
+    rep.instance()
+    if hits == 0:
+        rep.ok("package", f"no truthiness test or `or`-default on {sorted(set(k.lstrip('_') for k in ZERO_IS_A_VALUE))}", nontrivial=False)
+
+
 def memo_filled_in_place(ctx: Ctx, rep: Report, rid: str = "R05.10") -> None:
     """A memo becomes visible only when it is complete: the method that answers from `self._m` when it is set does not
     grow that very list while computing (an error or interruption half way leaves a partial list that every later query
@@ -1106,6 +1143,7 @@ def run(ctx: Ctx, rep: Report, tier: str) -> None:
     r05_8(ctx, rep)
     r05_9(ctx, rep)
     memo_filled_in_place(ctx, rep)
+    zero_is_not_unset(ctx, rep)
     expansion_covers_members(ctx, rep)
     # R05.11 a factory hands the caller's limit (all its keyword arguments) to the object it builds, on every path
     from .c16 import dict_builders_pass_everything
